@@ -3,7 +3,7 @@ histories, checking each against the real code and the model (the same checker t
 
 All C07 findings are repaired in the library by now: proj-id-alias, proj-op-alias,
 result-id-alias, proj-arg-mutated (5ac4c3c), update-value-alias (1c3a0e6), agg-literal-alias
-(aab0261), cursor-cache-alias (b973460), cursor-projection-by-reference (b829c96; it had been
+(aab0261), cursor-cache-alias (b973460), cursor-sort-by-reference (0c1b9e0), cursor-projection-by-reference (b829c96; it had been
 listed as an assumption of the harness, not as a finding).  This script turns the entries listed in FIXED into
 `fixed` records (keeping / adding the witness history) after checking that the witness runs clean
 through `props.c07.run_one` with nothing listed as known and that the named consequence no longer
@@ -17,6 +17,14 @@ import wire  # noqa: E402
 import props.c07 as c07  # noqa: E402
 
 FIXED = [
+    ('cursor-sort-by-reference', '0c1b9e0',
+     'a Cursor keeps the sort list it was given by reference and reads it when it computes its '
+     'results (first iteration, clone()): editing the list after find() returned changes the order '
+     'the cursor and its clones give (an argument aliased into the cursor)',
+     [['insert_many', [{'_id': 1, 'a': 2}, {'_id': 2, 'a': 1}], True],
+      ['find_rewind', {}, None, [['rewind']], [['a', 1]]],
+      ['cursor_again', 0, ['clone']]],
+     'cursor-sort-by-reference'),
     ('cursor-projection-by-reference', 'b829c96',
      'a Cursor keeps the projection dict / list it was given by reference and reads it when it '
      'computes its results (first iteration, clone(), sort()): editing the projection after find() '
